@@ -27,8 +27,6 @@ def real_compiled(tbl, um: ser.UidMap):
     from pydiverse.transform._internal.pipe.cache import Cache
     from pydiverse.transform._internal.tree import verbs as V
     nd = tbl._ast
-    if any(isinstance(x, V.Join) for x in nd.iter_subtree_preorder()):
-        return None
     backend = tbl._cache.backend
     if not issubclass(backend, SqlImpl):
         return None
